@@ -193,6 +193,7 @@ def run(run):
     run.bounds["kernel [S] n"] = kn
     run.pmap("kernel", kernel, kn)
     items = sweep.make_items(run, ["Copeland"], [chk_copeland, "wellformed"], flags=(True, False), light=light, heavy=light)
+    run.pmap("two_calls", sweep.two_calls_item, sweep.two_calls_items(run, ["Copeland"], [chk_copeland], 12 if run.thorough else 5), chunksize=1)
     run.pmap("sweep.run_item", sweep.run_item, items, chunksize=4)
     symb = [(2, 2), (3, 1), (3, 2), (2, 3)] + ([(4, 1), (2, 4)] if run.thorough else [])
     run.bounds["Copeland on symbolic datasets [S over datasets and schemes] (n, m)"] = symb
@@ -233,11 +234,22 @@ def replay(p):
             if list(rs[x]) != e or abs(sc[x] - (e[0] + 0.5 * e[1])) > 1e-9:
                 return True, f"element {x}: reported score {sc[x]} counts {list(rs[x])}, definition {e[0] + 0.5 * e[1]} {e}"
         return False, "kernel agrees with the definition"
-    from corankco.element import Element
+    if "two_calls" in p:
+        def judge(cons, exc, rj, sc_):
+            if exc is not None:
+                return True, f"raised {type(exc).__name__}: {exc}"
+            nm, lv_ = sweep.concrete_levels({"rankings": rj})
+            return concrete_check(cons, nm, lv_, sc_)
+        return sweep.replay_two_calls(p, judge)
     ds, sc, alg, cons, exc, log = sweep.concrete_run(p)
     if exc is not None:
         return p["check"] == "raises", f"raised {type(exc).__name__}: {exc}"
     names, lvs = sweep.concrete_levels(p)
+    return concrete_check(cons, names, lvs, sc)
+
+
+def concrete_check(cons, names, lvs, sc):
+    from corankco.element import Element
     S, C = oracle(names, lvs, sc)
     lv = {}
     for i, b in enumerate(cons.consensus_rankings[0]):
